@@ -1349,7 +1349,9 @@ func parseAddrHostUnion(token, o string, gatewayType uint8) (addr net.IP, host s
 		if addr == nil {
 			return addr, host, errors.New("gateway IP invalid")
 		}
-		if (addr.To4() == nil) == (gatewayType == IPSECGatewayIPv4) {
+		// An IPv4-mapped address written as an IPv6 address (::ffff:192.0.2.1) is one, as for AAAA.
+		isIPv4 := addr.To4() != nil && !(gatewayType == IPSECGatewayIPv6 && strings.Contains(token, ":"))
+		if isIPv4 != (gatewayType == IPSECGatewayIPv4) {
 			return addr, host, errors.New("gateway IP family mismatch")
 		}
 	case IPSECGatewayHost:
